@@ -98,7 +98,11 @@ func init() {
 	//   Lower = SMA(Low * (1 - 4 * (High - Low) / (High + Low)))
 	reg(&Ind{
 		Name: "AccelerationBands", In: "hlc", NOut: 3,
-		Make: func(cfg []int) any { return &volatility.AccelerationBands[float64]{Period: cfg[0]} },
+		Make: func(cfg []int) any {
+			x := volatility.NewAccelerationBands[float64]()
+			x.Period = cfg[0]
+			return x
+		},
 		Idle: func(inst any, cfg []int) int { return inst.(*volatility.AccelerationBands[float64]).IdlePeriod() },
 		Run: func(inst any, in []<-chan float64) []<-chan float64 {
 			u, m, l := inst.(*volatility.AccelerationBands[float64]).Compute(in[0], in[1], in[2])
@@ -136,9 +140,9 @@ func init() {
 	reg(&Ind{
 		Name: "BollingerBandWidth", In: "c", NOut: 1,
 		Make: func(cfg []int) any {
-			return &volatility.BollingerBandWidth[float64]{
-				BollingerBands: volatility.NewBollingerBandsWithPeriod[float64](cfg[0]),
-			}
+			x := volatility.NewBollingerBandWidth[float64]()
+			x.BollingerBands = volatility.NewBollingerBandsWithPeriod[float64](cfg[0])
+			return x
 		},
 		Idle: func(inst any, cfg []int) int { return inst.(*volatility.BollingerBandWidth[float64]).IdlePeriod() },
 		Run: func(inst any, in []<-chan float64) []<-chan float64 {
@@ -166,10 +170,9 @@ func init() {
 	reg(&Ind{
 		Name: "ChandelierExit", In: "hlc", NOut: 2,
 		Make: func(cfg []int) any {
-			return &volatility.ChandelierExit[float64]{
-				Period:     cfg[0],
-				Multiplier: volatility.DefaultChandelierExitMultiplier,
-			}
+			x := volatility.NewChandelierExit[float64]()
+			x.Period = cfg[0]
+			return x
 		},
 		Idle: func(inst any, cfg []int) int { return inst.(*volatility.ChandelierExit[float64]).IdlePeriod() },
 		Run: func(inst any, in []<-chan float64) []<-chan float64 {
@@ -372,7 +375,11 @@ func init() {
 	//   Ulcer Index = Sqrt(Squared Average)
 	reg(&Ind{
 		Name: "UlcerIndex", In: "c", NOut: 1,
-		Make: func(cfg []int) any { return &volatility.UlcerIndex[float64]{Period: cfg[0]} },
+		Make: func(cfg []int) any {
+			x := volatility.NewUlcerIndex[float64]()
+			x.Period = cfg[0]
+			return x
+		},
 		Idle: func(inst any, cfg []int) int { return inst.(*volatility.UlcerIndex[float64]).IdlePeriod() },
 		Run: func(inst any, in []<-chan float64) []<-chan float64 {
 			return one(inst.(*volatility.UlcerIndex[float64]).Compute(in[0]))
